@@ -745,5 +745,5 @@ func main() {
 	runStress(r)
 	r.Extra("cases", nCases)
 	r.Extra("decode_oracle_cases", decodeCases)
-	r.Finish("files: random index trees (own encoder; multi-level, CBiasing, mixed nodes, long codecs, empty elements, three layouts), rac.ChunkWriter and rac.Writer+raczlib outputs (both index locations, page sizes, resources), each unmodified or with 1-3 mutations (index-node field edits with the checksum repaired, truncation, wrong claimed size, extension, bit flips); 16 directed constructions (self/mutual loops, chains, stale root buffer, 0xFD element, short file, missing root, mixed node, spec examples); random blobs with magic; node-level ops through the verif hooks. A case is non-trivial when its root node is found (open succeeds); distinct = distinct (file bytes, claimed size).")
+	r.Finish("files: random index trees (own encoder; multi-level, CBiasing, mixed nodes, long codecs, empty elements, three layouts), rac.ChunkWriter and rac.Writer+raczlib outputs (both index locations, page sizes, resources), each unmodified or with 1-3 mutations (index-node field edits with the checksum repaired, truncation, wrong claimed size, extension, bit flips); 16 directed constructions (self/mutual loops, chains, stale root buffer, 0xFD element, short file, missing root, mixed node, spec examples); random blobs with magic; node-level ops through the verif hooks; for 2/3 of the files with DecompressedSize <= 65536 a random Read/Seek/SeekRange/Close script on the real rac.Reader with the toy codec (offsets aimed at chunk boundaries, int64 wrap-around, invalid whence, reads of 0..4200 bytes, a full sequential pass). One child process decodes valid raczlib files under back-to-back garbage collections and watches the decompressor for Go pointers stored in Go memory by C. A case is non-trivial when its root node is found (open succeeds); distinct = distinct (file bytes, claimed size).")
 }
